@@ -190,6 +190,19 @@ pub fn gen_dir2(r: &mut Rng, lat: bool) -> d2::Vector<f64> {
         v.normalize() * s
     }
 }
+/// near-zero directions (property: "all directions including ... near-zero ones"): an ordinary direction scaled by
+/// 2^-k, k in {30, 60, 200, 500, 1000} (exact scaling, possibly subnormal components), or by a decimal 1e-17 / 1e-40 /
+/// 1e-150.  Still non-zero.  `sel` cycles through the scales so that every shape meets every scale.
+pub const TINY_SCALES: usize = 8;
+pub fn tiny_scale(sel: usize) -> f64 {
+    match sel % TINY_SCALES {
+        0 => 2f64.powi(-30), 1 => 2f64.powi(-60), 2 => 2f64.powi(-200), 3 => 2f64.powi(-500), 4 => 2f64.powi(-1000),
+        5 => 1e-17, 6 => 1e-40, _ => 1e-150,
+    }
+}
+fn tiny3(r: &mut Rng, lat: bool, sel: usize) -> d3::Vector<f64> { gen_dir3(r, lat) * tiny_scale(sel) }
+fn tiny2(r: &mut Rng, lat: bool, sel: usize) -> d2::Vector<f64> { gen_dir2(r, lat) * tiny_scale(sel) }
+
 /// unit directions for the `_toward` variants: exact axis/Pythagorean ones on the lattice stream, normalised otherwise
 fn gen_unit3(r: &mut Rng, lat: bool) -> d3::Vector<f64> {
     if lat {
@@ -277,9 +290,16 @@ pub fn gen(r: &mut Rng, thorough: bool) -> Vec<(String, String)> {
     let mut v: Vec<(String, String)> = Vec::new();
     for it in 0..n {
         let lat = it % 2 == 0;
+        let mut tsel: usize = it * 5; // cycles the tiny-direction scales over shapes (+3 per draw) and iterations (+5)
         // every mode of a 3-D shape: `sa` = hex-encoded shape arguments
         let mut all3 = |r: &mut Rng, v: &mut Vec<(String, String)>, shape: &str, sa: String| {
             let d = gen_dir3(r, lat); let u = gen_unit3(r, lat); let m = d3::gen_iso(r, lat, 100.0);
+            // near-zero (tiny-norm, non-zero) directions for the un-normalised variants, local and posed
+            for _ in 0..2 {
+                tsel += 3; // 3 is coprime with TINY_SCALES: every shape meets every scale
+                v.push((format!("{}_local", shape), format!("{} {}", sa, d3::hv(&tiny3(r, lat, tsel)))));
+                v.push((format!("{}_posed", shape), format!("{} {} {}", sa, d3::hiso(&m), d3::hv(&tiny3(r, lat, tsel + 1)))));
+            }
             v.push((format!("{}_local", shape), format!("{} {}", sa, d3::hv(&d))));
             v.push((format!("{}_toward", shape), format!("{} {}", sa, d3::hv(&u))));
             v.push((format!("{}_posed", shape), format!("{} {} {}", sa, d3::hiso(&m), d3::hv(&gen_dir3(r, lat)))));
@@ -308,6 +328,8 @@ pub fn gen(r: &mut Rng, thorough: bool) -> Vec<(String, String)> {
         v.push(("cloud_id".into(), format!("{} {}", hpts3(&cloud), d3::hv(&d))));
         v.push(("cloud_point".into(), format!("{} {}", hpts3(&cloud), d3::hv(&d))));
         v.push(("cloud_id".into(), format!("{} {}", hpts3(&pp), d3::hv(&gen_dir3(r, lat)))));
+        v.push(("cloud_id".into(), format!("{} {}", hpts3(&cloud), d3::hv(&tiny3(r, lat, it)))));
+        v.push(("cloud_point".into(), format!("{} {}", hpts3(&pp), d3::hv(&tiny3(r, lat, it + 3)))));
         let br = r.pos_extent(lat);
         all3(r, &mut v, "roundcuboid", format!("{} {}", d3::hv(&he), hx(br)));
         all3(r, &mut v, "roundtriangle", format!("{} {} {} {}", d3::hp(&a), d3::hp(&b), d3::hp(&c), hx(br)));
@@ -323,8 +345,14 @@ pub fn gen(r: &mut Rng, thorough: bool) -> Vec<(String, String)> {
             v.push(("constantorigin_posed".into(), format!("{} {}", d3::hiso(&m), d3::hv(&d))));
         }
         // ---- 2-D
+        let mut tsel2: usize = it * 5;
         let mut all2 = |r: &mut Rng, v: &mut Vec<(String, String)>, shape: &str, sa: String| {
             let d = gen_dir2(r, lat); let u = gen_unit2(r, lat); let m = d2::gen_iso(r, lat, 100.0);
+            for _ in 0..2 {
+                tsel2 += 3;
+                v.push((format!("{}_local", shape), format!("{} {}", sa, d2::hv(&tiny2(r, lat, tsel2)))));
+                v.push((format!("{}_posed", shape), format!("{} {} {}", sa, d2::hiso(&m), d2::hv(&tiny2(r, lat, tsel2 + 1)))));
+            }
             v.push((format!("{}_local", shape), format!("{} {}", sa, d2::hv(&d))));
             v.push((format!("{}_toward", shape), format!("{} {}", sa, d2::hv(&u))));
             v.push((format!("{}_posed", shape), format!("{} {} {}", sa, d2::hiso(&m), d2::hv(&gen_dir2(r, lat)))));
@@ -369,6 +397,13 @@ pub fn gen(r: &mut Rng, thorough: bool) -> Vec<(String, String)> {
             v.push(("cuboid2_face".into(), format!("{} {}", d2::hv(&he2), d2::hv(&dd))));
             v.push(("triangle_edge".into(), format!("{} {} {} {}", d3::hp(&a), d3::hp(&b), d3::hp(&c), d3::hv(&d))));
         }
+        { // the raw-vector feature functions also accept near-zero directions
+            let d = tiny3(r, lat, it); let dd = tiny2(r, lat, it + 2);
+            v.push(("cuboid_face".into(), format!("{} {}", d3::hv(&he), d3::hv(&d))));
+            v.push(("cuboid_edge".into(), format!("{} {}", d3::hv(&he), d3::hv(&d))));
+            v.push(("cuboid2_face".into(), format!("{} {}", d2::hv(&he2), d2::hv(&dd))));
+            v.push(("triangle_edge".into(), format!("{} {} {} {}", d3::hp(&a), d3::hp(&b), d3::hp(&c), d3::hv(&d))));
+        }
         let u = gen_unit3(r, lat); let u2 = gen_unit2(r, lat);
         v.push(("cuboid_feature".into(), format!("{} {}", d3::hv(&he), d3::hv(&u))));
         v.push(("cuboid2_feature".into(), format!("{} {}", d2::hv(&he2), d2::hv(&u2))));
@@ -389,6 +424,29 @@ pub fn gen(r: &mut Rng, thorough: bool) -> Vec<(String, String)> {
             v.push(("cylinder_feature".into(), format!("{} {} {}", hx(r2), hx(r3), d3::hv(&u))));
             v.push(("cone_feature".into(), format!("{} {} {}", hx(r2), hx(r3), d3::hv(&u))));
             v.push(("polygon_feature".into(), format!("{} {}", hpts2(&pg), d2::hv(&gen_unit2(r, lat)))));
+        }
+        // structured family: the direction is (close to) the outward normal of a chosen edge -- every edge index in
+        // turn, and always the closing edge points[n-1] -> points[0] and the first edge
+        {
+            let np = pg.len();
+            for e in [np - 1, 0, it % np] {
+                let t = pg[(e + 1) % np] - pg[e];
+                let nrm = d2::Vector::new(t.y, -t.x);
+                if nrm.norm() > 0.0 {
+                    let u = nrm.normalize();
+                    v.push(("polygon_feature".into(), format!("{} {}", hpts2(&pg), d2::hv(&u))));
+                    let w = (u + d2::Vector::new(-u.y, u.x) * r.uniform(-0.2, 0.2)).normalize();
+                    v.push(("polygon_feature".into(), format!("{} {}", hpts2(&pg), d2::hv(&w))));
+                }
+            }
+            let tri = [ta, tb, tc];
+            for e in 0..3 {
+                let t = tri[(e + 1) % 3] - tri[e];
+                let nrm = d2::Vector::new(t.y, -t.x);
+                if nrm.norm() > 0.0 {
+                    v.push(("triangle2_feature".into(), format!("{} {} {} {}", d2::hp(&ta), d2::hp(&tb), d2::hp(&tc), d2::hv(&nrm.normalize()))));
+                }
+            }
         }
     }
     v
